@@ -151,6 +151,13 @@ func (s *Solver) Check(body string, vars []*Term) (SatResult, Model, string) {
 	defer func() { s.TimeNs += time.Since(t0).Nanoseconds(); s.Queries++ }()
 	atomic.StoreInt32(&s.killed, 0)
 	res, m, note := s.check1(body, vars, s.oneShotOnly)
+	if res == Unknown && atomic.LoadInt32(&s.killed) == 0 && time.Since(t0) < 2*time.Second &&
+		(strings.HasPrefix(note, "write failed") || note == "solver timeout/hang") {
+		// the process was already gone (a portfolio loser killed just after it had answered the
+		// previous query): that says nothing about this query; ask again on a fresh process
+		s.Close()
+		res, m, note = s.check1(body, vars, s.oneShotOnly)
+	}
 	if res == Unknown && !s.isCVC5() && !s.oneShotOnly && atomic.LoadInt32(&s.killed) == 0 {
 		// z3's incremental core gave up: retry once as a fresh one-shot problem (tactic pipeline)
 		s.Retries++
